@@ -72,6 +72,17 @@ def _exp_reader_snaps(w, op, res):
     return [("", "snaps", res, _reader_snaps_tag(w, f))]
 
 
+def _exp_held(w, op, res):
+    """Whatever a reader returned stays in the session (by reference) and is watched like every
+    other snapshots object: a later call must not change it."""
+    from PyMatterSim.reader.reader_utils import SingleSnapshot, Snapshots
+    if isinstance(res, list) and res and all(isinstance(x, SingleSnapshot) for x in res):
+        res = Snapshots(nsnapshots=len(res), snapshots=res)      # same frame objects, harness-side wrapper
+    if not isinstance(res, Snapshots):
+        return []
+    return [("", "snaps", res, {"base": False, "held": True, "coord": "held"})]
+
+
 def _gen_read_wrapper(w, rng):
     c = _dump_files(w)
     if not c:
@@ -95,7 +106,7 @@ def _gen_read_vector_wrapper(w, rng):
     return {"args": {"file_name": p, "ndim": f["ndim"], "columnsids": cols}, "reads": {p: f["src"]}}
 
 
-Adapter("read_lammps_vector_wrapper", "readers", "reader.lammps_reader_helper.read_lammps_vector_wrapper", gen=_gen_read_vector_wrapper)
+Adapter("read_lammps_vector_wrapper", "readers", "reader.lammps_reader_helper.read_lammps_vector_wrapper", gen=_gen_read_vector_wrapper, exports=_exp_held, prefix="S")
 
 
 def _gen_read_center_wrapper(w, rng):
@@ -116,7 +127,7 @@ def _call_center(w, op, kw):
 
 
 Adapter("read_lammps_centertype_wrapper", "readers", "reader.lammps_reader_helper.read_lammps_centertype_wrapper",
-        gen=_gen_read_center_wrapper, call=_call_center)
+        gen=_gen_read_center_wrapper, call=_call_center, exports=_exp_held, prefix="S")
 
 
 def _gen_handle_reader(kind):
@@ -155,11 +166,11 @@ def _call_handle_reader(kind):
     return call
 
 
-Adapter("read_lammps", "readers", "reader.lammps_reader_helper.read_lammps", gen=_gen_handle_reader("plain"), call=_call_handle_reader("plain"))
+Adapter("read_lammps", "readers", "reader.lammps_reader_helper.read_lammps", gen=_gen_handle_reader("plain"), call=_call_handle_reader("plain"), exports=_exp_held, prefix="S")
 Adapter("read_lammps_vector", "readers", "reader.lammps_reader_helper.read_lammps_vector", gen=_gen_handle_reader("vector"),
-        call=_call_handle_reader("vector"))
+        call=_call_handle_reader("vector"), exports=_exp_held, prefix="S")
 Adapter("read_lammps_centertype", "readers", "reader.lammps_reader_helper.read_lammps_centertype", gen=_gen_handle_reader("center"),
-        call=_call_handle_reader("center"))
+        call=_call_handle_reader("center"), exports=_exp_held, prefix="S")
 
 
 def _gen_read_additions(w, rng):
@@ -264,8 +275,8 @@ def _call_gsd(dcd):
     return call
 
 
-Adapter("read_gsd", "readers", "reader.gsd_reader_helper.read_gsd", gen=_gen_gsd(False), call=_call_gsd(False), faultable=False, weight=0.5)
-Adapter("read_gsd_dcd", "readers", "reader.gsd_reader_helper.read_gsd_dcd", gen=_gen_gsd(True), call=_call_gsd(True), faultable=False, weight=0.5)
+Adapter("read_gsd", "readers", "reader.gsd_reader_helper.read_gsd", gen=_gen_gsd(False), call=_call_gsd(False), faultable=False, weight=0.5, exports=_exp_held, prefix="S")
+Adapter("read_gsd_dcd", "readers", "reader.gsd_reader_helper.read_gsd_dcd", gen=_gen_gsd(True), call=_call_gsd(True), faultable=False, weight=0.5, exports=_exp_held, prefix="S")
 
 
 def _gen_log(w, rng):
